@@ -7,18 +7,20 @@ MANIFEST = {
             "two f32 operations, unit vw, sign flag kept, original token as source-map name), C10_int_exact_refuted "
             "(`2147483647` is printed `2147480000`: the full 'integers exactly' statement is false for the current code, "
             "D16), C10_int_exact_upto_100000 (every integer 0..100000 is printed exactly — by evaluating the model on every "
-            "value). The f32 arithmetic and cssparser's number printer (dtoa Grisu2-f32 + dtoa-short 6 digits) are "
+            "value), C10_prelude_rpx_refuted (`@a 75rpx;`: an rpx dimension directly in an at-rule prelude is left unconverted, "
+            "known finding D29 pinned by a unit test of /repo). The f32 arithmetic and cssparser's number printer (dtoa Grisu2-f32 + dtoa-short 6 digits) are "
             "transliterated in Gallina and tied to the binaries by differential testing: every numeric token of every "
             "generated sheet is printed by both (byte-exact agreement is part of the model/implementation comparison), "
             "and each run checks the implementation's printed values against exact rationals computed from the source "
             "spelling: |out-expected| <= eps_f32*|expected| (rpx: two roundings), integers exactly, units untouched.",
     "note": "Differential only (not proved): correctness of the float model w.r.t. IEEE-754 and of the printer w.r.t. the "
             "reals; the relative-error bound. Known finding D16: any value that needs more than 6 significant digits "
-            "(class decided per token: round_to_6_significant(expected) is outside the tolerance / differs for integers).",
+            "(class decided per token: round_to_6_significant(expected) is outside the tolerance / differs for integers). Known finding D29: rpx directly in an at-rule prelude (class CssSpec.k29_list). An rpx value whose product with 100 overflows f32 is outside the property (the formula value*100/ratio itself overflows).",
     "technique": "Coq lemmas on the rewrite + bounded evaluation in Coq + exact-rational oracle on the implementation output",
 }
 
-THEOREMS = ["C10_rpx_only", "C10_rpx_formula", "C10_int_exact_refuted", "C10_int_exact_upto_100000"]
+THEOREMS = ["C10_rpx_only", "C10_rpx_formula", "C10_int_exact_refuted", "C10_int_exact_upto_100000",
+            "C10_prelude_rpx_refuted"]
 
 
 def run(res):
